@@ -31,6 +31,8 @@ pub struct World {
     pub long_runs: u64,
     /// (a, b): b compiled right after a on one worker; a and b from the same workload directory
     pub siblings_list: Vec<(usize, usize)>,
+    /// (a, b, k): the same module under two option sets, finely interleaved on two workers, k-th seed
+    pub duel_list: Vec<(usize, usize, u32)>,
 }
 
 /// Steps of a solo trace worth a systematic fault/preemption: the first two and the last
@@ -190,7 +192,33 @@ impl World {
                 }
             }
         }
-        World { seed, thorough, tasks, info, pool, by_site, crash_list, ecrash_list, preempt_list, probes, long_runs, siblings_list }
+        // duels: one module under two of its option sets at once, two workers, control changing hands
+        // at random at (nearly) every yield, several seeds per pair. This is where a cache keyed on too
+        // little, or a check-then-act window between two critical sections, meets the one other
+        // transform that can hurt it: the same names under other options, a few steps ahead or behind.
+        let duel_sets: &[&str] = &["own", "default", "all", "inverse", "c01", "c03", "c05"];
+        let seeds_per_pair: u32 = if thorough { 24 } else { 6 };
+        let mut duel_modules: BTreeSet<String> = reps.iter().map(|i| tasks[*i].name.clone()).collect();
+        for &i in &pool {
+            if tasks[i].name.starts_with("w2/state/") || tasks[i].name.starts_with("w2/grid/multi/") {
+                duel_modules.insert(tasks[i].name.clone());
+            }
+        }
+        let mut duel_list = vec![];
+        for name in &duel_modules {
+            let variants: Vec<usize> = pool.iter().copied().filter(|i| &tasks[*i].name == name && tasks[*i].comments && !tasks[*i].script && duel_sets.contains(&tasks[*i].opt_name.as_str())).collect();
+            for (x, &a) in variants.iter().enumerate() {
+                for &b in variants.iter().skip(x + 1) {
+                    if info[a].steps > 3000 || info[b].steps > 3000 {
+                        continue;
+                    }
+                    for k in 0..seeds_per_pair {
+                        duel_list.push((a, b, k));
+                    }
+                }
+            }
+        }
+        World { seed, thorough, tasks, info, pool, by_site, crash_list, ecrash_list, preempt_list, probes, long_runs, siblings_list, duel_list }
     }
 
     fn base(&self, stratum: &str, run: u64) -> Plan {
@@ -209,6 +237,7 @@ impl World {
             sched_seed: mix(self.seed.wrapping_add(0xABCD) ^ mix(run ^ fxs(stratum))),
             opts_per_task: false,
             stack_kib: vec![],
+            handler_shared: false,
             tasks: vec![],
         }
     }
@@ -220,6 +249,7 @@ impl World {
             "random" => random_runs,
             "long" => self.long_runs,
             "siblings" => self.siblings_list.len() as u64,
+            "duel" => self.duel_list.len() as u64,
             _ => 0,
         }
     }
@@ -252,6 +282,7 @@ impl World {
             3 => p.store = StoreMode::PerTask,
             _ => {}
         }
+        p.handler_shared = run % 8 == 2 || run % 8 == 5;
         (p, vec![])
     }
 
@@ -288,6 +319,7 @@ impl World {
         };
         p.store = if rng.chance(50) { StoreMode::Shared } else { StoreMode::PerTask };
         p.opts_per_task = rng.chance(50);
+        p.handler_shared = rng.chance(25);
         if rng.chance(50) {
             p.stack_kib = (0..p.workers).map(|_| [2048u32, 8192, 65536][rng.below(3)]).collect();
         }
@@ -372,6 +404,7 @@ impl World {
         p.globals = if run % 3 == 0 { GlobalsMode::PerTask } else { GlobalsMode::Shared };
         p.store = if run % 4 < 2 { StoreMode::Shared } else { StoreMode::PerTask };
         p.opts_per_task = run % 8 >= 4;
+        p.handler_shared = run % 5 == 2;
         if run % 16 >= 8 {
             p.stack_kib = vec![2048, 8192];
         }
@@ -404,7 +437,23 @@ impl World {
             3 => p.store = StoreMode::PerTask,
             _ => {}
         }
+        p.handler_shared = run % 8 == 1 || run % 8 == 6;
         p.tasks = vec![self.tasks[a].clone(), self.tasks[b].clone(), self.tasks[a].clone()];
+        (p, vec![])
+    }
+
+    /// stratum 7: the same module under two option sets, both in flight at once
+    pub fn duel_plan(&self, run: u64) -> (Plan, Vec<Action>) {
+        let mut p = self.base("duel", run);
+        let (a, b, k) = self.duel_list[run as usize];
+        p.workers = 2;
+        p.opts_per_task = k % 2 == 1;
+        if k % 3 == 2 {
+            p.globals = GlobalsMode::PerTask;
+        }
+        // either order of dispatch
+        p.tasks = if k % 2 == 0 { vec![self.tasks[a].clone(), self.tasks[b].clone()] } else { vec![self.tasks[b].clone(), self.tasks[a].clone()] };
+        p.strategy = Strategy::Random { stay: [0, 30, 50, 70, 85, 20][(k % 6) as usize] };
         (p, vec![])
     }
 
@@ -419,6 +468,7 @@ impl World {
             "random" => self.random_plan(run),
             "long" => self.long_plan(run),
             "siblings" => self.siblings_plan(run),
+            "duel" => self.duel_plan(run),
             _ => panic!("unknown stratum {stratum}"),
         }
     }
